@@ -26,3 +26,10 @@ Theorem C07_exact_probability : C07_exact_probability_stmt.
 Proof. exact C07_exact_probability_proof. Qed.
 Print Assumptions C07_exact_probability.
 
+(* the boolean monitor that judges implementation steps for this property is passed by every
+   step of the model *)
+From NasimV Require Import Monitors.
+From NasimV.proofs Require Import PMonitors.
+Theorem monitor_C07_sound : forall sc st a k, ok_C07 sc (model_rec sc st a k) = true.
+Proof. exact model_passes_C07. Qed.
+Print Assumptions monitor_C07_sound.
